@@ -1023,19 +1023,26 @@ _dispatch_sync_complete_recurse(dispatch_queue_t dq, dispatch_queue_t stop_dq,
 		uintptr_t dc_flags)
 {
 	bool barrier = (dc_flags & DC_FLAG_BARRIER);
+	dispatch_queue_t held = NULL;
 	do {
-		if (dq == stop_dq) return;
+		if (dq == stop_dq) break;
 		// the target can change as soon as dq is released: walk the
-		// hierarchy that was locked on the way in
+		// hierarchy that was locked on the way in. dq then drops its
+		// reference to that target, possibly the last one, while this
+		// thread still holds the target's lock: keep it alive until it has
+		// been unlocked
 		dispatch_queue_t tq = dq->do_targetq;
+		_dispatch_retain(tq);
 		if (barrier) {
 			dx_wakeup(dq, 0, DISPATCH_WAKEUP_BARRIER_COMPLETE);
 		} else {
 			_dispatch_lane_non_barrier_complete(upcast(dq)._dl, 0);
 		}
-		dq = tq;
+		if (held) _dispatch_release(held);
+		held = dq = tq;
 		barrier = (dq->dq_width == 1);
 	} while (unlikely(dq->do_targetq));
+	if (held) _dispatch_release(held);
 }
 
 DISPATCH_NOINLINE
